@@ -34,6 +34,9 @@ Structure of the argument:
   each with a counter-witness below; F-C03-c/d/e/f (fixed) have
   a theorem on the fixed rule and a counter-witness on the model variant with the old rule.
   `RtlDraws` says that the two shuffles of the RTL layer are permutations (randomness as data).
+* `Props/C03System.lean` BUILDS the `System` for every graph `buildSpec` returns (`systemOf`, fields
+  proved from C01/C02/C04–C07/C20) and instantiates `C03_partial` for every accepted configuration of
+  every model shape (`C03_systemOf`); `exSystem` below is the original hand-built example.
 -/
 namespace Tfl.C03
 open Tfl Tfl.Premade Tfl.Poset Tfl.Linear
@@ -371,9 +374,9 @@ theorem linear_constraint_delivers (monos : List Nat) (normalized : Bool) (w0 w 
     exact C06.normalize_l1_unit _ hz
 
 
-/-- the function a categorical calibrator unit with kernel `k` realises; categories and the default
-value are integers given as rationals -/
-def catFn (k : List ℚ) (dflt : Option ℚ) (x : ℚ) : ℚ := Categorical.call k (dflt.map Rat.num) x.num
+/- `catFn k dflt x` (the function a categorical calibrator unit with kernel `k` realises; categories
+and the default value are integers given as rationals) and `pwlFn` are defined in `Model/Premade.lean`:
+the driver evaluates them inside the concrete composite. -/
 
 theorem catFn_row (k : List ℚ) (dflt : Option ℚ) (hint : ∀ m, dflt = some m → m = (m.num : ℚ)) (hk : k ≠ [])
     (x : ℚ) (hx : dflt = some x ∨ ∃ j : Nat, j < k.length ∧ x = (j : ℚ)) :
@@ -455,12 +458,6 @@ theorem cumsumIncl_eq_cumsumFrom : ∀ (a : ℚ) (l : List ℚ), PwlEval.cumsumI
 theorem keypointsOutputs_eq (cfgE : PwlEval.Cfg) (hc : cfgE.isCyclic = false) (b : ℚ) (hs : List ℚ) :
     PwlEval.keypointsOutputs cfgE (b :: hs) = PwlProj.outputs b hs := by
   simp [PwlEval.keypointsOutputs, hc, PwlEval.cumsumIncl, PwlProj.outputs, cumsumIncl_eq_cumsumFrom]
-
-/-- the function a PWL calibrator unit realises (`PWLCalibration.call` without `is_missing` tensor) -/
-def pwlFn (cfgE : PwlEval.Cfg) (kernel ws : List ℚ) (mo x : ℚ) : ℚ :=
-  match PwlEval.call cfgE kernel ws mo x none with
-  | .ok v => v
-  | .error _ => 0
 
 theorem pwlFn_spec (cfgE : PwlEval.Cfg) (missing : Option ℚ) (hi : cfgE.imputeMissing = missing.isSome)
     (hv : cfgE.missingInputValue = missing) (kernel ws : List ℚ) (mo x : ℚ) :
@@ -626,6 +623,42 @@ theorem lattice_constraint_delivers (b : Block) (cfg : Lat.Cfg) (hsz : cfg.sizes
     (hne : b.sizes ≠ []) (hs2 : ∀ n ∈ b.sizes, 2 ≤ n) (w : W) :
     LatOk b (latFn b.sizes (Lat.clipBounds cfg.lo cfg.hi (Lat.finalize cfg w))) := by
   obtain ⟨hM, _, _, hB⟩ := C01.C01_strict_edgeworth_class cfg hwf hnt w
+  rw [hsz] at hM hB
+  set K := Lat.clipBounds cfg.lo cfg.hi (Lat.finalize cfg w)
+  constructor
+  · intro z d v hz hz' hd hle
+    by_cases hdl : d < b.sizes.length
+    · unfold latFn
+      refine C02.C02_T4_hypercube_mono .list false b.sizes K z d v hne hs2 hdl ?_
+        ⟨hz.1, Or.inr (inRange_of_inBox _ _ hz)⟩ ⟨hz'.1, Or.inr (inRange_of_inBox _ _ hz')⟩ hle
+      intro idx hidx hlt
+      exact hM d hdl (hmono d hd) idx (mem_allIdx.mp hidx) hdl hlt
+    · rw [set_of_length_le _ _ (by rw [hz.1]; omega)]
+  · intro z hz
+    have hvals : ∀ y ∈ (allIdx b.sizes).map K, inB b.outMin b.outMax y := by
+      intro y hy
+      obtain ⟨idx, hidx, rfl⟩ := List.mem_map.mp hy
+      have := hB idx (mem_allIdx.mp hidx)
+      rw [hlo, hhi] at this
+      exact this
+    obtain ⟨l, u, hin, hout⟩ := exists_box b.outMin b.outMax _ hvals
+    have := C02.C02_T2_range .list false b.sizes K z l u hne hs2 ⟨hz.1, Or.inr (inRange_of_inBox _ _ hz)⟩
+      (fun idx hidx => hin _ (List.mem_map_of_mem hidx))
+    exact hout _ this.1 this.2
+
+/-- **T1 premise, `Lattice` (C01 class C = H_trap, + C02).** The same for EVERY configuration of C01's
+general mixed class: any monotonicities, any Edgeworth trusts, any TRAPEZOID trusts (alone, sharing
+conditional axes; or together with Edgeworth trusts, matching or not, when no two trapezoid trusts
+share a conditional axis and — unless the lattice has rank 2 — no trapezoid conditional axis is
+monotone), any bounds. Outside this class lies finding F-C01-a (Edgeworth trusts + a trapezoid trust
+on a monotone conditional axis + a third axis: `C01.C01_counter_witness`), which premade models
+inherit (pinned for C03 under the same id). -/
+theorem lattice_constraint_delivers_mixed (b : Block) (cfg : Lat.Cfg) (hsz : cfg.sizes = b.sizes)
+    (hmono : ∀ d, b.monos.getD d 0 = 1 → cfg.mono.getD d false = true)
+    (hlo : cfg.lo = b.outMin) (hhi : cfg.hi = b.outMax) (hwf : C01.CfgWF cfg) (hmx : C01.MixedClassWF cfg)
+    (hne : b.sizes ≠ []) (hs2 : ∀ n ∈ b.sizes, 2 ≤ n) (w : W) :
+    LatOk b (latFn b.sizes (Lat.clipBounds cfg.lo cfg.hi (Lat.finalize cfg w))) := by
+  obtain ⟨hM, _, _, hB⟩ := C01.C01_strict_mixed_class cfg hwf hmx w
   rw [hsz] at hM hB
   set K := Lat.clipBounds cfg.lo cfg.hi (Lat.finalize cfg w)
   constructor
